@@ -13,7 +13,7 @@ def parse_answer(ans):
         return ans.split(" ")[0], None, None, {}
     res, trace, meta = [x.strip() for x in ans.split(" | ")]
     md = dict(kv.split("=") for kv in meta.split())
-    md = {k: int(v) for k, v in md.items()}
+    md = {k: (int(v) if v.lstrip("-").isdigit() else v) for k, v in md.items()}
     if res.startswith("ok"):
         body = res[2:].strip()
         fs = [] if body in ("-", "") else [int(x) for x in body.split(",")]
